@@ -4,7 +4,7 @@ Runs every seeded regression under /verif/seeded against the quick check of the 
 /repo, through VERIF_REPO; /repo itself is never touched), records the outcome in seeded/<id>/meta.json ("detection") and
 rewrites the table between the SEED-MATRIX markers of DESIGN.md.
 
-  notes/seed_matrix.py [-j N] [seed ids ...]        (default: all seeds, one at a time)
+  notes/seed_matrix.py [-j N] [seed ids ...]        (default: all seeds, four at a time)
 """
 import os
 import re
@@ -29,8 +29,12 @@ def run_one(sid):
         a = subprocess.run(["git", "-C", wt, "apply", os.path.join(VERIF, "seeded", sid, "patch.diff")], capture_output=True, text=True)
         if a.returncode != 0:
             return sid, prop, "patch does not apply", ""
+        # a private copy of coq/ (19 MB with the compiled files, mtimes kept): the run regenerates coq/Gen from the changed tree
+        subprocess.run(["rm", "-rf", f"/tmp/sdm_coq_{sid}"])
+        subprocess.run(["cp", "-a", os.path.join(VERIF, "coq"), f"/tmp/sdm_coq_{sid}"], check=True)
         env = dict(os.environ, VERIF_REPO=wt, VERIF_SEED=os.environ.get("VERIF_SEED", "7"),
-                   VERIF_EVIDENCE_DIR=f"/tmp/sdm_ev_{sid}")
+                   VERIF_EVIDENCE_DIR=f"/tmp/sdm_ev_{sid}", VERIF_COQ_DIR=f"/tmp/sdm_coq_{sid}",
+                   VERIF_REPLAY_DIR=f"/tmp/sdm_rp_{sid}")
         p = subprocess.run([os.path.join(VERIF, "check"), prop, "--tier", "quick"], cwd=VERIF, env=env, capture_output=True, text=True,
                            timeout=3600)
         viol = [l for l in p.stdout.splitlines() if l.startswith("VIOLATION")]
@@ -45,12 +49,12 @@ def run_one(sid):
         return sid, prop, outcome, summary
     finally:
         subprocess.run(["git", "-C", "/repo", "worktree", "remove", "--force", wt], capture_output=True)
-        subprocess.run(["rm", "-rf", f"/tmp/sdm_ev_{sid}"])
+        subprocess.run(["rm", "-rf", f"/tmp/sdm_ev_{sid}", f"/tmp/sdm_coq_{sid}", f"/tmp/sdm_rp_{sid}"])
 
 
 def main():
     args = sys.argv[1:]
-    jobs = 1      # checks of different trees share coq/Gen: one at a time
+    jobs = 4      # every run works on its own copy of coq/ (VERIF_COQ_DIR), so runs against different trees do not interfere
     if args and args[0] == "-j":
         jobs = int(args[1])
         args = args[2:]
